@@ -471,6 +471,9 @@ class BaseCooccurrenceVectorizer(BaseEstimator, TransformerMixin):
             self._coo_sizes = np.array(coo_sizes * average_window, dtype=np.int64)
 
         self._coo_sizes = np.divmod(self._coo_sizes, self.n_threads)[0]
+        # coo_append compacts when one free slot is left and only grows at 95% fill,
+        # so a buffer needs at least 20 slots to never be overrun
+        self._coo_sizes = np.maximum(self._coo_sizes, 20)
 
     def _generate_chunk_boundaries(self, data, n_threads):
         token_list_sizes = np.array([len(x) for x in data])
